@@ -9,16 +9,18 @@ copy of compiled / composed at every split point / composed then compiled), on T
   (b) backward(x) == reference inverse automorphism of x, then forward(backward(x)) == x,
 for x = one PauliList holding the complete Pauli group with all four phases (strings and phases
 compared element-exact) and signed stabilizer states of every rank (strings, phases mod 4, rank)."""
+import itertools
 from .. import circ, dom
 from ..core import Leg
 
 PROP = 'C10'
+SUB7 = (0, 7, 8, 11, 13, 14, 15)     # N=3 sub-alphabet of the quick length-3 leg
 RULE = ('all gate programs of length <= k over the C09 alphabet x every configuration x {whole Pauli group list, 2 signed '
         'tableaux x every rank} x both orders (backward after forward on a fresh object, forward after backward on a second '
         'fresh object), plus the complete single-gate and single-layer domains; a case = one real round trip / backward '
         'call compared with the identity / the reference inverse; non-trivial = the reference automorphism is not the identity; '
         'states = distinct reference automorphisms')
-ASSUMPTIONS = ['bounded program length and N<=3',
+ASSUMPTIONS = ['bounded program length and N<=4',
                'generic gates on ascending qubit tuples only; map-less random gates excluded (not deterministic)',
                'a gate given BOTH maps is only exercised with mutually inverse maps (the class docstring requires it)',
                'Circuit (with measurements) has no copy()/compose(); only unitary circuits are in scope of C10',
@@ -68,25 +70,32 @@ def legs(tier, for_replay=False):
         Leg('programs_N2', fn_programs, p2, chunk=24 if quick else 48, src_states=len(p2), timeout=3000,
             bound='N=2: all %d programs of length <= %d over 12 letters x all configurations x both orders' % (len(p2), k2)),
     ]
+    if quick:
+        p3s = [[3, list(p)] for p in itertools.product(SUB7, repeat=3)]
+        out.append(Leg('programs_N3_len3', fn_programs, p3s, chunk=8, src_states=len(p3s),
+                       bound='N=3: all %d programs of length exactly 3 over the 7-letter sub-alphabet %s (H0, CNOT(2,1), CNOT(0,2), gen(0,1) -XZ, '
+                             'clifford_rotation_gate(XIY), fmap(0,2), bmap(1,2)); the thorough tier covers length <= 4 over all 17 letters' % (len(p3s), SUB7)))
     p4 = circ.programs('py', 4, 2 if quick else 3)
     out.append(Leg('programs_N4', fn_programs, p4, chunk=4 if quick else 16, src_states=len(p4), timeout=3000,
                    bound='N=4: all %d programs of length <= %d over 10 letters (two 2-qubit gates on interleaved wires (0,2),(1,3) can share a layer; '
                          '4-qubit global generator) x all configurations x (1024-element group list + 7 states)' % (len(p4), 2 if quick else 3)))
-    gs = [it for N in (1, 2, 3) for it in circ.gate_specs('py', N, tier)]
+    gs = [it for N in (1, 2, 3) for it in circ.gate_specs('py', N, tier, 'C10')]
     out.append(Leg('gates', fn_gates, gs, chunk=16 if quick else 64, timeout=3000,
                    bound='N<=3: named gates and C(k) on every wire, generator gates (all strings, both signs), clifford_rotation_gate '
-                         '(all full-width generators, both signs) and map gates (all 24 one-qubit maps; two-qubit maps stride %d of 11520) '
+                         '(all full-width generators, both signs) and map gates (all 24 one-qubit maps; two-qubit maps stride %s of 11520) '
                          'on every ascending tuple, forward-only / backward-only / both; bare, compiled, copied, used-then-copied, in a layer, '
-                         'in one-gate circuits' % (97 if quick else 1)))
+                         'in one-gate circuits' % ('97' if quick else '1 at N=2 (global gate) and 3 at N=3 (x 3 placements)')))
     ls = circ.disjoint_tuples('py', 3, 3) + circ.disjoint_tuples('py', 2, 2)
     out.append(Leg('layers', fn_layers, ls, chunk=8, bound='every ordered tuple of pairwise disjoint base letters (N=2,3) as one CliffordLayer: direct / take-built / compiled / copied'))
     if not for_replay:
         circ.warmup('torch')
     t3 = circ.programs('torch', 3, 2 if quick else 3)
     t2 = circ.programs('torch', 2, 2 if quick else 3)
+    if quick:   # three-gate programs (the shortest in which layer packing can go wrong) over 4 of the 8 letters
+        t2 = t2 + [[2, list(p)] for p in itertools.product((0, 1, 2, 5), repeat=3)]
     out.append(Leg('torch_programs', fn_torch_programs, t2 + t3, chunk=2, timeout=3000,
                    bound='torchclifford: all programs of length <= %d over 8 (N=2) / 9 (N=3) letters; uncompiled / copy / composed' % (2 if quick else 3)))
-    tg = [it for N in (2, 3) for it in circ.gate_specs('torch', N, tier)]
+    tg = [it for N in (2, 3) for it in circ.gate_specs('torch', N, tier, 'C10')]
     out.append(Leg('torch_gates', fn_torch_gates, tg, chunk=2, timeout=3000,
                    bound='torchclifford: generator / map gates on ascending tuples (reduced strides), clifford_rotation_gate'))
     tl = circ.disjoint_tuples('torch', 3, 2)
